@@ -359,6 +359,31 @@ impl System for IndSys {
 			Ok(o3) => return Step::Violation(Failure::new(format!("{name}/clone/continues-differently"), format!("{o1:?} vs {o3:?}"))),
 			Err(p) => return Step::Violation(Failure::new(format!("{name}/clone/panic"), p.msg)),
 		}
+		// `clone_from` into instances of the same indicator with OTHER parameters and a past of their own
+		for other in checks::indcheck::indicator_configs_small3(name).iter().take(3) {
+			if other.to_json().ok() == cfg.to_json().ok() {
+				continue;
+			}
+			let Ok(Ok(mut dst)) = catch(|| other.init(&self.alphabet[1])) else { continue };
+			let _ = catch(|| dst.next(&self.alphabet[0]));
+			match catch(|| dst.clone_from_inst(c_same.as_ref()).then_some(dst)) {
+				Ok(None) => break,
+				Ok(Some(dst)) => {
+					if dst.debug_key() != c_same.debug_key() {
+						return Step::Violation(Failure::new(format!("{name}/clone_from/state-differs"), format!("clone_from into an instance configured {}: source {} copy {}", other.to_json().unwrap_or_default(), c_same.debug_key(), dst.debug_key())));
+					}
+					for y in &self.alphabet {
+						let mut a = c_same.boxed_clone();
+						let mut b = dst.boxed_clone();
+						let (Ok(oa), Ok(ob)) = (catch(|| a.next(y)), catch(|| b.next(y))) else { continue };
+						if rbits(&oa) != rbits(&ob) {
+							return Step::Violation(Failure::new(format!("{name}/clone_from/continues-differently"), format!("clone_from into an instance configured {}: source -> {oa:?}, copy -> {ob:?}", other.to_json().unwrap_or_default())));
+						}
+					}
+				}
+				Err(p) => return Step::Violation(Failure::new(format!("{name}/clone_from/panic"), p.msg)),
+			}
+		}
 		// the clone lives on, the twin is the never-cloned lineage
 		n.orig = c_same;
 		n.hist.push(c);
